@@ -252,3 +252,59 @@ package lang
 //@   ensures[C04] array-length: istype(srcVal, "[]any") ==> result.Tag == ValueArray && len(result.Array) == len(as(srcVal, "[]any"))
 //@   ensures[C04] strings-length: istype(srcVal, "[]string") ==> result.Tag == ValueArray && len(result.Array) == len(as(srcVal, "[]string"))
 //@   ensures[C04] object: istype(srcVal, "map[string]any") ==> result.Tag == ValueObj && fresh(result.Obj)
+
+// ---------------------------------------------------------------- printf (C18, C20)
+
+// Ghost state: bytes written to the evaluator's standard output.
+//@ ghost $out string
+// Ghost snapshots used by nativePrintf's step assertions.
+//@ ghost $numStr string
+//@ ghost $pretty string
+//@ ghost $sbFinal string
+
+//@ spec func repeatS(p string, n int) string = smt("s_repeat", string, p, n)
+// DESIGN.md C18: pad(width, padchar, rendering): left-pad to width w > 0, right-pad to -w for w < 0, never truncate.
+//@ spec func specPad(w int, p string, s string) string = w > 0 && len(s) < w ? repeatS(p, w - len(s)) + s : (w < 0 && len(s) < 0 - w ? s + repeatS(p, 0 - w - len(s)) : s)
+//@ spec func argsOK(args []*Value) bool = forall k int :: 0 <= k && k < len(args) ==> args[k] != nil
+
+//@ func checkArg [C18,C16]
+//@   requires argsOK(args) && 0 <= index
+//@   ensures[C18] ok-iff: (err == nil) <==> (0 <= index && index < len(args) && args[index].Tag == tag)
+//@   ensures[C18] ok-result: err == nil ==> result0 == args[index]
+//@   ensures[C01] errkind: err != nil ==> !isSyn(err) && !isRT(err) && !isJsonErr(err) && !isFlow(err)
+//@   modifies nothing
+
+//@ func checkArgCount [C15,C16]
+//@   ensures[C15] ok-iff: (err == nil) <==> len(args) == expectedCount
+//@   ensures[C01] errkind: err != nil ==> !isSyn(err) && !isRT(err) && !isJsonErr(err) && !isFlow(err)
+//@   modifies nothing
+
+// Rendering reads the value graph only; the ancestor path it extends lives in the spare capacity of rootValues.
+//@ func Value.PrettyString [C17]
+//@   requires v != nil
+//@   modifies nothing
+//@ func Value.prettyStringInteral [C17]
+//@   requires v != nil && argsOK(rootValues)
+//@   modifies spare(rootValues)
+
+// printf is specified step by step: every byte or piece appended to the builder is justified by the
+// directive under the cursor (site assertions), the single write happens only on success, and the
+// output is exactly the builder's content.  That the steps compose to "the format with each directive
+// replaced" is lemma L18 (induction over the scan), not machine-checked.
+//@ func nativePrintf [C18,C20]
+//@   requires e != nil && argsOK(args)
+//@   after strconv.ParseInt: $numStr = arg0
+//@   after Value.PrettyString: $pretty = ret0
+//@   after (*strings.Builder).String: $sbFinal = ret0
+//@   assert[C18] byte-verbatim: arg1 == fmtStr[i] @ (*strings.Builder).WriteByte
+//@   assert[C18] directive-known: fmtStr[i] == 's' || fmtStr[i] == 'f' || fmtStr[i] == 'v' @ (*strings.Builder).WriteString
+//@   assert[C18] directive-s: fmtStr[i] == 's' ==> 1 <= argIndex - 1 && argIndex - 1 < len(args) && args[argIndex-1].Tag == ValueStr && arg1 == specPad(widthSpec, padChar, specStr(*args[argIndex-1])) @ (*strings.Builder).WriteString
+//@   assert[C18] directive-f: fmtStr[i] == 'f' ==> 1 <= argIndex - 1 && argIndex - 1 < len(args) && args[argIndex-1].Tag == ValueNum && arg1 == specPad(widthSpec, padChar, specStr(*args[argIndex-1])) @ (*strings.Builder).WriteString
+//@   assert[C18] directive-v: fmtStr[i] == 'v' ==> 1 <= argIndex - 1 && argIndex - 1 < len(args) && arg1 == specPad(widthSpec, padChar, $pretty) @ (*strings.Builder).WriteString
+//@   assert[C18] pad-char-of-this-directive: (arg0 == "0" || arg0 == " ") && ((arg0 == "0") <==> ($numStr[0] == '0')) && widthSpec == smt("pi_val", int, $numStr) && len($numStr) >= 1 @ strings.Repeat
+//@   assert[C20] width-limit: 0 - 65536 <= widthSpec && widthSpec <= 65536 && arg1 >= 0 && arg1 <= 65536 @ strings.Repeat
+//@   ensures[C18] error-writes-nothing: err != nil ==> $out == old($out)
+//@   ensures[C18] success-writes-builder: err == nil ==> result0 == nil && $out == old($out) + $sbFinal
+//@   ensures[C01] errkind: err != nil ==> !isSyn(err) && !isRT(err) && !isJsonErr(err) && !isFlow(err)
+//@   loop 0 invariant scan: 0 <= i && i <= end && end == len(fmtStr) && 1 <= argIndex && $out == old($out)
+//@   loop 1 invariant width-scan: i < numEnd && numEnd <= end && end == len(fmtStr) && 0 <= i
